@@ -82,12 +82,29 @@ H("protocol", "c05_ip_pre_n3", timeout=1500, needs_segment=["ip_pre"],
   what="mask shares of an input wire are addressed to the wire's owner only (never self, never a third party, never for non-input registers); arbitrary Input placement does not panic",
   bounds="n=3, own index 1, <=2 instructions of any opcode (Input position == out as Circuit::validate guarantees), 1..=2 input shares", functions=["mpc::protocol::input_processing (segment before scatter)"], panic_prop="C18")
 
+for row, tier in ((0, "quick"), (1, "thorough"), (2, "thorough"), (3, "quick")):
+    H("protocol", f"c03_evaluate_and_arm_n2_row{row}", tier=tier, needs_segment=["evaluate_and_arm"],
+      what="evaluator, one AND gate: never panics; Ok => row decrypted, garbler share carries a MAC that verifies under the evaluator's key; masked output == own row bit ^ garbler bit; garbler label == label_share ^ own MAC",
+      bounds=f"n=2, selected row {row}, decrypt result arbitrary (Ok with MAC vector of length 0..=2, or Err)", functions=["mpc::protocol::evaluate (AND arm segment)"], panic_prop="C08", stubs=["garble::decrypt -> arbitrary result (textual substitution in the cut segment)"])
+H("protocol", "c01_and_gate_table_n2", needs_segment=["garbler_rows", "evaluator_rows", "garbler_row_labels"],
+  what="authenticated garbled table of one AND gate, garbler + evaluator rows + row labels: row_i bits XOR to (a^lx)(b^ly)^lg, row shares carry valid MACs (incl. row-3 key correction), row label ^ evaluator MAC == label0 ^ value*delta",
+  bounds="n=2, all bits/MACs/keys/both deltas/label symbolic 128-bit, all 4 rows", functions=["mpc::protocol::garble (garbler row construction, evaluator row construction, row labels)"], panic_prop="C01")
+for k, b_, tier, to in ((4, 2, "quick", 600), (5, 2, "thorough", 600), (3, 1, "thorough", 600), (4, 3, "quick", 600), (3, 2, "quick", 600)):
+    H("protocol", f"c01_init_and_shares_chunks_k{k}_b{b_}", tier=tier, timeout=to, needs_segment=["init_and_shares_loop"],
+      what="init_and_shares(): chunks written for gen_auth_bits == chunk_size_iter(and_ops, batch)", bounds=f"{k} AND gates, batch size {b_} (live-in of the cut loop)", functions=["mpc::protocol::init_and_shares (loop segment)", "mpc::protocol::chunk_size_iter"], panic_prop="C01", stubs=["FileOrMemBuf::write_chunk -> log of chunk lengths (textual substitution)"])
+for k, b_, tier, to in ((3, 2, "quick", 1500), (4, 2, "thorough", 2400), (3, 1, "thorough", 1500), (5, 2, "thorough", 3000), (4, 3, "thorough", 2400)):
+    H("protocol", f"c01_garbler_chunks_k{k}_b{b_}", tier=tier, timeout=to, needs_segment=["garbler_loop"],
+      what="garble() garbler side: gate chunks sent to the evaluator == chunk_size_iter(and_ops, batch) (what the evaluator's receive loop expects)", bounds=f"{k} AND gates, batch size {b_} (live-in of the cut loop)", functions=["mpc::protocol::garble (garbler loop segment)", "mpc::protocol::chunk_size_iter"], panic_prop="C01", stubs=["send_to(..'preprocessed gates'..).await -> log of chunk lengths", "garble::encrypt -> Ok(empty)", "rand::random -> 0"])
+
 # faand segments
 H("faand", "c04_check_dvalue_tail_n2_b3", needs_segment=["check_dvalue_tail"],
   what="d-value opening: Ok(d) => peer opened exactly as many d-bits and MACs as the bucket needs, every MAC verifies, d == own ^ peer; no inner length panics",
   bounds="n=2, one bucket of 3 triples (2 d-values), peer inner vector lengths 0..=3 free", functions=["mpc::faand::check_dvalue (segment after scatter)"], panic_prop="C08")
-H("faand", "c04_beaver_tail_n2", timeout=1200, mem_gb=40, tier="thorough", needs_segment=["beaver_tail"],
-  what="Beaver derandomisation: Ok => peer's d/e MACs verified; share == c ^ d*beta ^ e*a (bit, MAC, key)", bounds="n=2, one triple", functions=["mpc::faand::beaver_aand (segment after scatter)"], panic_prop="C08")
+H("faand", "c04_beaver_check_n2", needs_segment=["beaver_check"],
+  what="Beaver derandomisation, check of the opened (d,e): Ok => BOTH MACs of every triple verify under the own keys; openings == own ^ peer", bounds="n=2, two triples", functions=["mpc::faand::beaver_aand (segment after scatter, MAC check + accumulation)"], panic_prop="C08")
+for de, tier in (("d0e0", "thorough"), ("d0e1", "quick"), ("d1e0", "quick"), ("d1e1", "quick")):
+    H("faand", f"c10_beaver_final_n2_{de}", tier=tier, needs_segment=["beaver_final"],
+      what="Beaver derandomisation, final share == c ^ d*beta ^ e*a (bit, MAC, key)", bounds=f"n=2, one triple, opened (d,e) = {de}", functions=["mpc::faand::beaver_aand (final-share segment)"], panic_prop="C10")
 H("faand", "c07_fashare_3c_n2", needs_segment=["fashare_3c"],
   what="aShare step 3c: no peer decommitment panics; claimed bits > 1 rejected; opens d0 or d1; d0^delta only for a claim whose MAC verifies under the own key",
   bounds="n=2, RHO lowered to 2 inside the cut segment, peer inner lengths {0,1,16,17}", functions=["mpc::faand::fashare (step 3c segment)"], panic_prop="C08")
@@ -113,7 +130,7 @@ H("gf128", "c20_gf128_reduce_eq_bitserial", what="scalar::gf128_reduce == bit-se
 H("gf128", "c20_clmul64_basis_times_full", what="scalar::clmul64(x^i, y) == y << i and symmetric", bounds="all i < 64, all y", functions=["block::gf128::scalar::clmul64"], panic_prop="C20")
 H("gf128", "c20_clmul64_window16_times_full", tier="thorough", timeout=5400, what="scalar::clmul64 == schoolbook for x an arbitrary 16-bit window at any shift <= 48, y arbitrary", bounds="16-bit window of x, all y", functions=["block::gf128::scalar::clmul64"], panic_prop="C20")
 H("gf128", "c20_clmul128_karatsuba_basis_times_full", what="scalar::clmul128 recombination (clmul64 replaced by its definition): (x^i, b) -> b << i as 256 bits split into (low, high), and symmetric", bounds="all i < 128, all b", functions=["block::gf128::scalar::clmul128"], panic_prop="C20", stubs=["scalar::clmul64 -> schoolbook definition"])
-H("gf128", "c20_clmul128_karatsuba_windows8", timeout=1500, what="scalar::clmul128 recombination (clmul64 replaced by its definition) == schoolbook on two arbitrary 8-bit windows at arbitrary positions", bounds="8-bit windows, shifts 0..=120 each", functions=["block::gf128::scalar::clmul128"], panic_prop="C20", stubs=["scalar::clmul64 -> schoolbook definition"])
+H("gf128", "c20_clmul128_karatsuba_windows8", tier="thorough", timeout=3600, what="scalar::clmul128 recombination (clmul64 replaced by its definition) == schoolbook on two arbitrary 8-bit windows at arbitrary positions", bounds="8-bit windows, shifts 0..=120 each", functions=["block::gf128::scalar::clmul128"], panic_prop="C20", stubs=["scalar::clmul64 -> schoolbook definition"])
 H("gf128", "c20_pclmul_clmul128_basis_times_full", sub="pclmul", what="PCLMUL path clmul::clmul128 (instruction replaced by Intel's definition): same basis x full obligation", bounds="all i < 128, all b", functions=["block::gf128::clmul::clmul128"], panic_prop="C20", stubs=["_mm_clmulepi64_si128 -> 64x64 schoolbook of the selected halves"])
 H("gf128", "c20_pclmul_reduce_eq_bitserial", sub="pclmul", what="PCLMUL path clmul::gf128_reduce == bit-serial reduction", bounds="all 2^256 inputs", functions=["block::gf128::clmul::gf128_reduce"], panic_prop="C20", stubs=["_mm_clmulepi64_si128 -> definition"])
 H("transpose", "c20_portable_transpose_16x16", what="portable::transpose_bitmatrix: out[c][r] == in[r][c]", bounds="every 16x16 input", functions=["transpose::portable::transpose_bitmatrix"], panic_prop="C20", stubs=["_mm_sll_epi64 -> Intel SDM model"])
@@ -147,12 +164,13 @@ PROPS = {}
 
 PROPS["C01"] = dict(
     level="model_checking",
-    level_text="Bounded model checking of the three pure functions all parties use to agree on batch boundaries (the part of C01 the suite never reaches: several batches): for all counts < 2^40 the batch sizes are positive/consistent, and chunk_size_iter yields exactly the sizes the producer-side flush pattern emits.",
-    level_note="Partial: decides multi-batch agreement only. Not covered: share propagation through the circuit, the 4-row table, output opening end-to-end, tmp_dir choices (interactive/async code, DESIGN §2). The flush pattern is re-stated in one harness (assumption).",
+    level_text="Bounded model checking of (a) the batch/chunk arithmetic all parties use to agree on batch boundaries for all counts < 2^40, (b) the real producer loops (init_and_shares, garbler gate streaming) cut from the source with the batch size as a live-in so that batch boundaries are crossed with 3-5 AND gates: the chunks they emit are exactly chunk_size_iter(and_ops, batch), (c) the authenticated garbled table of one AND gate on both sides composed with the evaluator's AND arm, for all share/MAC/key/global-key values.",
+    level_note="Partial: per-gate and per-batch steps, n=2. Not covered: whole-circuit share propagation end to end, role assignments through the async send/receive layer, tmp_dir (file) variant, n>2.",
     explanation="Kani/CBMC over Context::new + batch-size methods + chunk_size_iter with symbolic totals.",
     outside="totals < 2^40; at most 10 chunks (implied by the batch-size lemma); small-value iterator class total<=24/chunk<=8.",
     assumptions=[FMT, TRACING, "flush pattern 'push; if len >= batch flush; ...; if !empty flush' re-stated in c01_flush_pattern_matches_chunk_iter"],
-    harnesses=by_prefix("c01_"),
+    harnesses=by_prefix("c01_") + by_prefix("c03_evaluate_and_arm"),
+    segments=["init_and_shares_loop", "garbler_loop", "garbler_rows", "evaluator_rows", "garbler_row_labels", "evaluate_and_arm"],
 )
 
 PROPS["C02"] = dict(
@@ -173,8 +191,8 @@ PROPS["C03"] = dict(
     explanation="Segment harnesses over input_processing() and output().",
     outside="n=2; <=3 registers; cryptographic primitives outside.",
     assumptions=[FMT, TRACING, SEG, N2],
-    segments=["ip_mid", "ip_post", "output_tail", "output_label_check"],
-    harnesses=hs("c03_ip_mid_n2", "c03_ip_post_n2", "c03_output_label_check_n2_regs01", "c03_output_label_check_n2_regs11", "c02_output_tail_n2_regs11", "c02_output_tail_n2_regs01"),
+    segments=["ip_mid", "ip_post", "output_tail", "output_label_check", "evaluate_and_arm"],
+    harnesses=hs("c03_ip_mid_n2", "c03_ip_post_n2", "c03_output_label_check_n2_regs01", "c03_output_label_check_n2_regs11", "c02_output_tail_n2_regs11", "c02_output_tail_n2_regs01") + by_prefix("c03_evaluate_and_arm"),
 )
 
 PROPS["C04"] = dict(
@@ -184,8 +202,8 @@ PROPS["C04"] = dict(
     explanation="Segment harnesses over check_dvalue, fashare (3c, 3d), beaver_aand.",
     outside="n=2; orderings over message histories and coin-toss reuse are outside the technique's reach.",
     assumptions=[FMT, TRACING, SEG, N2, "open_commitment(..) -> arbitrary bool inside the fashare_3d segment (textual substitution)", "RHO shadowed by a local const 2 inside the fashare segments"],
-    segments=["check_dvalue_tail", "fashare_3c", "fashare_3d", "beaver_tail"],
-    harnesses=hs("c04_check_dvalue_tail_n2_b3", "c07_fashare_3c_n2", "c04_fashare_3d_n2", "c04_beaver_tail_n2"),
+    segments=["check_dvalue_tail", "fashare_3c", "fashare_3d", "beaver_check"],
+    harnesses=hs("c04_check_dvalue_tail_n2_b3", "c07_fashare_3c_n2", "c04_fashare_3d_n2", "c04_beaver_check_n2"),
 )
 
 PROPS["C05"] = dict(
@@ -217,8 +235,8 @@ PROPS["C08"] = dict(
     explanation="Kani/CBMC on utils::serde::deserialize and on all segment harnesses (generic CBMC failures are attributed to C08).",
     outside="byte strings of length 8, 9, 12 (18/25 in thorough); <= (N-8)/elem elements.",
     assumptions=[FMT, TRACING, SEG],
-    segments=["check_dvalue_tail", "fashare_3c", "fashare_3d", "ip_mid", "ip_post", "output_tail", "output_label_check", "beaver_tail"],
-    harnesses=by_prefix("c08_") + hs("c04_check_dvalue_tail_n2_b3", "c07_fashare_3c_n2", "c04_fashare_3d_n2", "c03_ip_mid_n2", "c03_ip_post_n2", "c02_output_tail_n2_regs11", "c03_output_label_check_n2_regs01", "c04_beaver_tail_n2"),
+    segments=["check_dvalue_tail", "fashare_3c", "fashare_3d", "ip_mid", "ip_post", "output_tail", "output_label_check", "beaver_check", "evaluate_and_arm"],
+    harnesses=by_prefix("c08_") + hs("c04_check_dvalue_tail_n2_b3", "c07_fashare_3c_n2", "c04_fashare_3d_n2", "c03_ip_mid_n2", "c03_ip_post_n2", "c02_output_tail_n2_regs11", "c03_output_label_check_n2_regs01", "c04_beaver_check_n2") + by_prefix("c03_evaluate_and_arm"),
 )
 
 PROPS["C09"] = dict(
@@ -238,8 +256,8 @@ PROPS["C10"] = dict(
     explanation="Kani/CBMC on data_types operators, combine_two_leaky_ands, combine_bucket, bucket_size, chunked_update_with_rbits, beaver tail segment.",
     outside="n <= 3 (4 for XOR); stated length classes of chunked_update_with_rbits.",
     assumptions=[FMT, TRACING, "pairwise IT-MAC relation assumed on inputs (representation invariant)", SEG],
-    segments=["beaver_tail", "check_dvalue_tail"],
-    harnesses=by_prefix("c10_") + hs("c04_beaver_tail_n2", "c04_check_dvalue_tail_n2_b3", "c07_fashare_3c_n2"),
+    segments=["beaver_check", "beaver_final", "check_dvalue_tail", "garbler_rows", "evaluator_rows", "garbler_row_labels"],
+    harnesses=by_prefix("c10_") + hs("c04_beaver_check_n2", "c04_check_dvalue_tail_n2_b3", "c07_fashare_3c_n2", "c01_and_gate_table_n2"),
 )
 
 PROPS["C11"] = dict(
